@@ -15,8 +15,9 @@ Record cl := Cl {
   cl_leader : nat;
   cl_forward : bool;
   cl_snap : snapshot_data;
+  cl_begun : state;                              (* the state FSM.Snapshot() captured (ZB), persisted later (ZP) *)
 }.
-Global Instance eta_cl : Settable _ := settable! Cl <cl_nodes; cl_out; cl_leader; cl_forward; cl_snap>.
+Global Instance eta_cl : Settable _ := settable! Cl <cl_nodes; cl_out; cl_leader; cl_forward; cl_snap; cl_begun>.
 
 Definition show_resp (r : fsm_resp) : string :=
   match r with FReply r => show_reply r | FErr => "-" | FDeleted => "?4f4b" end.
@@ -88,6 +89,27 @@ Definition step_line (c : cl) (line : string) : cl * list string :=
       | Some i, Some w => (c <| cl_snap := fsm_persist w (nth_state c i) |>, ["Z ok"])
       | _, _ => (c, ["BAD " +:+ line])
       end
+  | ["ZB"; n] =>
+      (* hashicorp/raft calls FSM.Snapshot() between two applies and Persist later, while further entries are
+         applied: the snapshot is the state at the moment of Snapshot() *)
+      match parse_nat_Z n with
+      | Some i => (c <| cl_begun := nth_state c i |>, [])
+      | None => (c, ["BAD " +:+ line])
+      end
+  | ["ZP"; wall] =>
+      match parse_int wall with
+      | Some w => (c <| cl_snap := fsm_persist w (cl_begun c) |>, ["Z ok"])
+      | None => (c, ["BAD " +:+ line])
+      end
+  | "LO" :: n :: db :: args =>
+      (* a committed entry replayed on one node only (the suffix of the log a node applies after installing a snapshot) *)
+      match parse_nat_Z n, parse_int db, unhex_all args with
+      | Some i, Some d, Some argv =>
+          let '(s', r) := fsm_apply default_pick (nth_state c i) (ReqCommand d argv) in
+          (set_node c i s', ["R" +:+ show_nat i +:+ " " +:+ show_resp r])
+      | _, _, _ => (c, ["BAD " +:+ line])
+      end
+  | ["BL"; _] => (c, [])     (* the next entries arrive as one raft batch: the state machine must apply them in log order *)
   | ["V"; n; wall] =>
       match parse_nat_Z n, parse_int wall with
       | Some i, Some w => (set_node c i (fsm_restore w (cl_snap c) (nth_state c i)), ["V ok"])
@@ -136,7 +158,7 @@ Definition init_cl (cfg : list string) : cl :=
   let fwd := match get "forward" with Some v => String.eqb v "1" | None => false end in
   {| cl_nodes := map (fun i => init_state (nth i nows default_now)) (seq 0 n);
      cl_out := map (fun _ => []) (seq 0 n);
-     cl_leader := leader; cl_forward := fwd; cl_snap := [] |}.
+     cl_leader := leader; cl_forward := fwd; cl_snap := []; cl_begun := init_state 0 |}.
 
 Definition run_raft (lines : list string) : list string :=
   match lines with
